@@ -60,6 +60,13 @@ def _one(arg):
                     viol.append(('faulted-handle-lost', f'faulted handle reports stored object {k[:10]} as absent'))
             except Exception:  # pylint: disable=broad-except
                 pass      # loud failure of the faulted handle is allowed
+        # 1b. ordinary maintenance through the same (faulted) handle must not make things worse: clean_storage() only ever removes
+        #     loose copies of objects whose index entry is committed
+        if res.exc is not None and sc.op[0] not in ('repack', 'repack_pack'):
+            try:
+                w.h.clean_storage()
+            except Exception:  # pylint: disable=broad-except
+                pass
         for hh in w.handles:
             hh.close()
         # 2. raw state + fresh handle: the C05 oracle
